@@ -518,6 +518,174 @@ theorem three_routes_agree (sec : Bytes) (ds : List (Outcome Decoded))
           23 + out.length ≤ 4096 ∧ pdu.length = 23 + out.length) :=
   three_routes_agree_of_fit sec ds hacc (paths_fit sec ds hacc hlen)
 
+/-! ## the builder route succeeds (audit C07-F1) -/
+
+private theorem attrsWalk_of_decAll : ∀ (f : Nat) (bs : Bytes) (l : List (Outcome Decoded)),
+    decAll true f bs = .ok l → attrsWalk f bs = .ok ()
+  | 0, bs, l, h => by
+    unfold decAll at h; unfold attrsWalk
+    split at h <;> simp_all
+  | f + 1, bs, l, h => by
+    unfold decAll at h; unfold attrsWalk
+    split at h
+    · simp_all
+    · rename_i hne
+      simp only [hne]
+      unfold decAttr at h
+      cases hp : parseWire true bs with
+      | ok p =>
+        obtain ⟨w, r⟩ := p
+        simp only [hp] at h ⊢
+        cases hr : decAll true f r with
+        | ok l' => exact attrsWalk_of_decAll f r l' hr
+        | err => simp [hr] at h
+        | panic => simp [hr] at h
+      | err => simp [hp] at h
+      | panic => simp [hp] at h
+
+private theorem mpPeek_ok : ∀ (g f : Nat) (bs : Bytes) (ws : List (UInt8 × UInt8 × Bytes)),
+    splitAll f bs = some ws → (∀ w ∈ ws, w.2.1.toNat ≠ 14 ∧ w.2.1.toNat ≠ 15) → mpPeek g bs = .ok ()
+  | 0, _, _, _, _, _ => rfl
+  | g + 1, f, bs, ws, hs, hc => by
+    unfold mpPeek
+    cases hsp : splitAttr bs with
+    | none => rfl
+    | some q =>
+      obtain ⟨fl, tc, v, r⟩ := q
+      have hne : bs.isEmpty = false := by
+        cases bs with
+        | nil => simp [splitAttr] at hsp
+        | cons _ _ => rfl
+      cases f with
+      | zero => unfold splitAll at hs; simp [hne] at hs
+      | succ f =>
+        unfold splitAll at hs
+        simp only [hne, Bool.false_eq_true, if_false, hsp] at hs
+        cases hr : splitAll f r with
+        | none => simp [hr] at hs
+        | some l =>
+          simp only [hr, Option.some.injEq] at hs
+          subst hs
+          have h1 := hc (fl, tc, v) (by simp)
+          simp only [h1.1, h1.2, if_false]
+          exact mpPeek_ok g f r l hr (fun w hw => hc w (by simp [hw]))
+
+private theorem wireAll_noMp : ∀ (m : List Decoded) (ws : List (UInt8 × UInt8 × Bytes)), WireAll m ws →
+    (∀ x ∈ m, codeOf x ≠ 14 ∧ codeOf x ≠ 15) → ∀ w ∈ ws, w.2.1.toNat ≠ 14 ∧ w.2.1.toNat ≠ 15
+  | [], [], _, _ => by simp
+  | [], _ :: _, h, _ => by simp [WireAll] at h
+  | _ :: _, [], h, _ => by simp [WireAll] at h
+  | d :: ds, w :: ws, h, hc => by
+    intro x hx
+    simp only [WireAll] at h
+    rcases List.mem_cons.mp hx with rfl | hx
+    · have := hc d (by simp)
+      rw [h.1.1]; exact this
+    · exact wireAll_noMp ds ws h.2 (fun y hy => hc y (by simp [hy])) x hx
+
+/-- `UpdateMessage::from_octets` accepts what `finish` wrote for a builder that holds
+attributes only: a well-framed attribute section without MP_REACH_NLRI / MP_UNREACH_NLRI,
+no withdrawn routes, no conventional NLRI, true length fields. -/
+private theorem parsePdu_attrs_only (out : Bytes) (l : List (Outcome Decoded)) (ws : List (UInt8 × UInt8 × Bytes))
+    (hdec : decAll true out.length out = .ok l) (hsp : splitAll out.length out = some ws)
+    (hc : ∀ w ∈ ws, w.2.1.toNat ≠ 14 ∧ w.2.1.toNat ≠ 15) (hsz : 23 + out.length ≤ 4096) :
+    ∃ p, parsePdu (List.replicate 16 (0xff : UInt8) ++ be16 (16 + 2 + 1 + 2 + (2 + out.length)) ++ [2] ++ be16 0 ++
+      be16 out.length ++ out) = .ok p := by
+  have hL : 16 + 2 + 1 + 2 + (2 + out.length) = 23 + out.length := by omega
+  rw [hL]
+  have h19 : takeN 19 (List.replicate 16 (0xff : UInt8) ++ be16 (23 + out.length) ++ [2] ++ be16 0 ++ be16 out.length ++ out)
+      = some (List.replicate 16 (0xff : UInt8) ++ be16 (23 + out.length) ++ [2], be16 0 ++ be16 out.length ++ out) := by
+    have := takeN_append (List.replicate 16 (0xff : UInt8) ++ be16 (23 + out.length) ++ [2]) (be16 0 ++ be16 out.length ++ out)
+    simpa [List.append_assoc] using this
+  have hwalk : attrSection out = .ok () := by
+    unfold attrSection
+    rw [attrsWalk_of_decAll _ _ _ hdec]
+    exact mpPeek_ok _ _ _ _ hsp hc
+  have hhdr : rd16 ((List.replicate 16 (0xff : UInt8) ++ be16 (23 + out.length) ++ [2]).drop 16) = some (23 + out.length, [2]) := by
+    have : (List.replicate 16 (0xff : UInt8) ++ be16 (23 + out.length) ++ [2]).drop 16 = be16 (23 + out.length) ++ [2] := by
+      simp [List.drop_append]
+    rw [this]; exact rd16_be16 _ (by omega) _
+  have htake16 : (List.replicate 16 (0xff : UInt8) ++ be16 (23 + out.length) ++ [2]).take 16 = List.replicate 16 (255 : UInt8) := by
+    simp [List.take_append]
+  have hconv : convOk [] = .ok () := rfl
+  unfold parsePdu
+  simp only [h19, htake16, hhdr, ne_eq, not_true_eq_false, if_false]
+  have h0 : rd16 (be16 0 ++ be16 out.length ++ out) = some (0, be16 out.length ++ out) := by
+    have := rd16_be16 0 (by omega) (be16 out.length ++ out)
+    simpa [List.append_assoc] using this
+  have hn : rd16 (be16 out.length ++ out) = some (out.length, out) := rd16_be16 _ (by omega) _
+  have ht0 : takeN 0 (be16 out.length ++ out) = some ([], be16 out.length ++ out) := by
+    simpa using takeN_append [] (be16 out.length ++ out)
+  have htn : takeN out.length out = some (out, []) := by
+    simpa using takeN_append out []
+  have hlt : ¬ (23 + out.length < 19) := by omega
+  have hann : ¬ (23 + out.length - 19 < 2 + 0 + 2 + out.length) := by omega
+  have hk : 23 + out.length - 19 - (2 + 0 + 2 + out.length) = 0 := by omega
+  have ht00 : takeN 0 ([] : Bytes) = some ([], []) := by simpa using takeN_append [] ([] : Bytes)
+  simp only [hlt, if_false, h0, ht0, Nat.lt_irrefl, hn, htn, hann, hk, ht00, hconv]
+  by_cases hz : out.length > 0
+  · simp [hz, hwalk]
+  · simp [hz]
+
+/-- *"through a builder seeded from the message - succeeds"* (audit C07-F1): for a
+section that parses and whose attributes other than MP_REACH_NLRI / MP_UNREACH_NLRI
+re-encode to at most 4073 octets - in particular for the attributes of every accepted
+UPDATE of at most 4096 octets whose re-encoding is not longer than what was received -
+`UpdateBuilder::from_update_message` + `into_message` return a PDU (and
+`three_routes_agree` says which).  `_partial`: above that size `into_message` returns
+`PduTooLarge` (`builder_route_too_large`): `UpdateMessage::from_octets` accepts UPDATEs
+of up to 65535 octets, the builder writes at most `MAX_PDU` = 4096 - so the clause as
+the property states it (`BuilderRouteStatement`) is false: `builder_route_fails`, known
+finding K12. -/
+theorem builder_route_succeeds_partial (sec : Bytes) (ds : List (Outcome Decoded))
+    (hacc : decAll true sec.length sec = .ok ds) (hlen : sec.length ≤ 43690)
+    (out : Bytes) (hout : viaMap sec = .ok out) (hsz : 23 + out.length ≤ 4096) :
+    ∃ pdu, viaBuilder sec = .ok pdu := by
+  obtain ⟨owned, m, out', _, hm, _, hmem, _, hvm, hl, hdec, ⟨ws, hws, hwa⟩, _⟩ := three_routes_agree sec ds hacc hlen
+  have : out' = out := by rw [hvm] at hout; cases hout; rfl
+  subst this
+  have hc := wireAll_noMp m ws hwa (fun x hx => (hmem x hx).2)
+  obtain ⟨p, hp⟩ := parsePdu_attrs_only out' _ ws hdec hws hc hsz
+  have henc : encList m = .ok out' := by simpa [viaMap, hm] using hvm
+  have hns : ¬ (16 + 2 + 1 + 2 + (2 + out'.length) > MAX_PDU) := by simp [MAX_PDU]; omega
+  simp only [viaBuilder, hm, finishAttrs, hl, henc, hns, if_false, hp]
+  exact ⟨_, rfl⟩
+
+/-- ... and exactly then: a map that re-encodes to more than 4073 octets makes
+`into_message` return an error (`PduTooLarge`), never a panic and never a PDU. -/
+theorem builder_route_too_large (sec : Bytes) (ds : List (Outcome Decoded))
+    (hacc : decAll true sec.length sec = .ok ds) (hlen : sec.length ≤ 43690)
+    (out : Bytes) (hout : viaMap sec = .ok out) (hsz : 4096 < 23 + out.length) :
+    viaBuilder sec = .err := by
+  obtain ⟨owned, m, out', _, hm, _, _, _, hvm, hl, _, _, _⟩ := three_routes_agree sec ds hacc hlen
+  have : out' = out := by rw [hvm] at hout; cases hout; rfl
+  subst this
+  simp only [viaBuilder, hm, finishAttrs, hl]
+  have hns : 16 + 2 + 1 + 2 + (2 + out'.length) > MAX_PDU := by simp [MAX_PDU]; omega
+  simp only [hns, if_true]
+
+/-- the clause as the property states it: for EVERY attribute section that parses (here
+even restricted to the sizes the other theorems cover) the builder route succeeds -/
+def BuilderRouteStatement : Prop :=
+  ∀ (sec : Bytes) (ds : List (Outcome Decoded)), decAll true sec.length sec = .ok ds → sec.length ≤ 43690 →
+    ∃ pdu, viaBuilder sec = .ok pdu
+
+/-- the witness of K12: one unrecognised attribute (type 99, flags 0xD0) with a 4080-octet
+value.  The PDU around it has 4107 octets and is accepted (`k12_accepted`) -/
+def k12Section : Bytes := [0xD0, 99, 0x0F, 0xF0] ++ List.replicate 4080 0xAA
+
+theorem k12_accepted : (parsePdu (mkPdu [] k12Section [])).isOk = true := by decide +kernel
+
+/-- known finding K12: the builder route fails (`PduTooLarge`) on that accepted UPDATE -/
+theorem builder_route_fails : ¬ BuilderRouteStatement := by
+  intro h
+  have hd : decAll true k12Section.length k12Section =
+      .ok [.ok (.unimplemented 0xD0 99 (List.replicate 4080 0xAA))] := by decide +kernel
+  obtain ⟨pdu, hp⟩ := h k12Section _ hd (by decide +kernel)
+  have : viaBuilder k12Section = .err := by decide +kernel
+  rw [this] at hp
+  cases hp
+
 /-- a section with an unrecognised attribute (EXTENDED_LEN on two octets), a
 malformed ORIGIN and a well-formed MED satisfies the hypotheses -/
 example : ∃ ds, decAll true 16 [0xD0, 99, 0, 2, 0xAA, 0xBB, 0x40, 1, 0, 0x80, 4, 4, 0, 0, 0, 7] = .ok ds := ⟨_, rfl⟩
